@@ -247,8 +247,12 @@ util::Result<SelectionResult> SelectCoinsBnB(std::vector<OutputGroup>& utxo_pool
             // higher waste.  If so, selecting `next_utxo` would produce an equivalent or worse
             // selection as one we previously evaluated. In that case, increment `next_utxo` until we find a UTXO with a
             // differing amount.
+            // This only holds if `next_utxo` is not lighter than the omitted UTXO: at low feerates the UTXO with the
+            // lower waste is the heavier one, and combinations that exceeded max_selection_weight with it may be
+            // within the limit with its lighter successor, so that one must still be explored.
             Assume(next_utxo < utxo_pool.size());
-            while (utxo_pool[next_utxo - 1].GetSelectionAmount() == utxo_pool[next_utxo].GetSelectionAmount()) {
+            while (utxo_pool[next_utxo - 1].GetSelectionAmount() == utxo_pool[next_utxo].GetSelectionAmount() &&
+                   utxo_pool[next_utxo - 1].m_weight <= utxo_pool[next_utxo].m_weight) {
                 if (next_utxo >= utxo_pool.size() - 1) {
                     // Reached end of UTXO pool skipping clones: SHIFT instead
                     should_shift = true;
